@@ -370,7 +370,7 @@ template<multi::dimensionality_type D> void q_death_assign(VS<D> const& a, AnyVi
 }
 
 // operations --------------------------------------------------------------------------------------------------
-struct CallArg { int kind; long a, b; };  // 0 = index, 1 = range, 2 = ALL
+struct CallArg { int kind; long a, b; };  // 0 = index, 1 = range, 2 = ALL, 3 = (multi::_ < a), 4 = (a <= multi::_)
 
 template<class V, class... As> AnyView call_rec(V&& v, CallArg const* a, int k, As... as) {
 	if(k == 0) { return store(v(as...)); }
@@ -378,6 +378,8 @@ template<class V, class... As> AnyView call_rec(V&& v, CallArg const* a, int k, 
 		switch(a->kind) {
 			case 0: return call_rec(v, a + 1, k - 1, as..., static_cast<idx_t>(a->a));
 			case 1: return call_rec(v, a + 1, k - 1, as..., multi::irange{a->a, a->b});
+			case 3: return call_rec(v, a + 1, k - 1, as..., (multi::_ < static_cast<idx_t>(a->a)));
+			case 4: return call_rec(v, a + 1, k - 1, as..., (static_cast<idx_t>(a->a) <= multi::_));
 			default: return call_rec(v, a + 1, k - 1, as..., multi::ALL);
 		}
 	} else { std::abort(); }
@@ -439,7 +441,7 @@ template<multi::dimensionality_type D> AnyView apply_op(VS<D> const& s, Op const
 static std::string op_line(int dst, int src, Op const& op) {
 	std::string s = "v " + std::to_string(dst) + " " + std::to_string(src) + " " + op.name;
 	if(op.name == "call") {
-		for(auto const& c : op.call) { s += ' '; if(c.kind == 0) s += "i" + std::to_string(c.a); else if(c.kind == 1) s += "r" + std::to_string(c.a) + ":" + std::to_string(c.b); else s += "a"; }
+		for(auto const& c : op.call) { s += ' '; if(c.kind == 0) s += "i" + std::to_string(c.a); else if(c.kind == 1) s += "r" + std::to_string(c.a) + ":" + std::to_string(c.b); else if(c.kind == 3) s += "l" + std::to_string(c.a); else if(c.kind == 4) s += "g" + std::to_string(c.a); else s += "a"; }
 	} else { for(long x : op.a) { s += ' '; s += std::to_string(x); } }
 	return s;
 }
@@ -480,9 +482,10 @@ template<multi::dimensionality_type D> bool gen_op(VS<D> const& s, Rng& rng, boo
 					op.name = "call"; bool ok = true;
 					for(int j = 0; j < k; ++j) {
 						long fj = ex[static_cast<std::size_t>(j)].first, lj = ex[static_cast<std::size_t>(j)].last;
-						int kind = rng.pick({40, 40, 20});
+						int kind = rng.pick({36, 36, 16, 6, 6});
 						if(kind == 0) { if(lj - fj <= 0) { ok = false; break; } op.call.push_back(CallArg{0, rng.range(fj, lj - 1), 0}); }
 						else if(kind == 1) { long x = rng.range(fj, lj); long y = rng.range(x, lj); op.call.push_back(CallArg{1, x, y}); }
+						else if(kind == 3 || kind == 4) { op.call.push_back(CallArg{kind, rng.range(fj - 2, lj + 2), 0}); }   // clipping ranges, also entirely outside the extension
 						else { op.call.push_back(CallArg{2, 0, 0}); }
 					}
 					if(ok) return true; break; }
@@ -740,6 +743,8 @@ static void run_replay(char const* path) {
 			for(std::size_t k = 4; k < w.size(); ++k) {
 				if(op.name == "call") {
 					if(w[k] == "a") op.call.push_back(CallArg{2, 0, 0});
+					else if(w[k][0] == 'l') op.call.push_back(CallArg{3, std::stol(w[k].substr(1)), 0});
+					else if(w[k][0] == 'g') op.call.push_back(CallArg{4, std::stol(w[k].substr(1)), 0});
 					else if(w[k][0] == 'i') op.call.push_back(CallArg{0, std::stol(w[k].substr(1)), 0});
 					else { auto c = w[k].find(':'); op.call.push_back(CallArg{1, std::stol(w[k].substr(1, c - 1)), std::stol(w[k].substr(c + 1))}); }
 				} else op.a.push_back(std::stol(w[k]));
